@@ -26,6 +26,7 @@ use std::time::{Duration, Instant};
 
 mod ep;
 mod gen;
+mod models;
 
 // ------------------------------------------------------------------ allocation guard
 /// Counting allocator. Per thread: live bytes, peak, and an optional ceiling. When a case
@@ -258,7 +259,7 @@ pub fn exec_case(w: &Arc<ep::RWorld>, class: &'static ep::Class, input: &gen::In
         Ok((kind, loc, msg, peak)) => {
             let _ = h.join();
             let ms = t0.elapsed().as_millis() as u64;
-            if !kind.is_failure() && peak > lim.alloc_soft {
+            if !kind.is_failure() && peak > lim.alloc_soft + 256 * input.len() {
                 return Outcome { kind: Kind::Alloc, loc: "soft-ceiling".into(), msg: format!("peak {} bytes", peak), ms, peak };
             }
             Outcome { kind, loc, msg, ms, peak }
@@ -480,12 +481,17 @@ fn supervise(args: &[String]) {
     let tier = args.get(1).map(|s| s.as_str()).unwrap_or("quick").to_string();
     let mut only: Option<Vec<String>> = None;
     let mut mult: f64 = 1.0;
+    let mut no_shrink = false;
     let mut i = 2;
     while i < args.len() {
         match args[i].as_str() {
             "--only" => {
                 only = Some(args[i + 1].split(',').map(|s| s.to_string()).collect());
                 i += 2;
+            }
+            "--no-shrink" => {
+                no_shrink = true;
+                i += 1;
             }
             "--mult" => {
                 mult = args[i + 1].parse().unwrap_or(1.0);
@@ -616,15 +622,22 @@ fn supervise(args: &[String]) {
         }
         for ((kind, loc), (count, idx, label, o)) in &s.fails {
             let (input, _) = gen::gen_case(&w, c, seed, *idx);
-            // confirm + shrink in child processes
-            let confirm = run_one_child(&exe, c.name, &input);
-            let (min, tries) = if same_failure(&confirm, o) {
-                shrink(&exe, c.name, &input, o, shrink_budget)
+            // confirm + shrink in child processes (skipped with --no-shrink: the caller decides
+            // which failures are new and asks for `robust shrink` only for those)
+            let (reproduced, min, tries) = if no_shrink {
+                (true, input.clone(), 0)
             } else {
-                (input.clone(), 0)
+                let confirm = run_one_child(&exe, c.name, &input);
+                if same_failure(&confirm, o) {
+                    let (m, t) = shrink(&exe, c.name, &input, o, shrink_budget);
+                    (true, m, t)
+                } else {
+                    (false, input.clone(), 0)
+                }
             };
+            let line = min.to_line();
             println!(
-                "FAIL {} kind={} loc={} msg={} label={} idx={} count={} reproduced={} orig_len={} min_len={} shrink_tries={} input={}",
+                "FAIL {} kind={} loc={} msg={} label={} idx={} count={} reproduced={} orig_len={} min_len={} shrink_tries={} regen={}:{} input={}",
                 c.name,
                 kind,
                 hexs(loc),
@@ -632,15 +645,50 @@ fn supervise(args: &[String]) {
                 label,
                 idx,
                 count,
-                same_failure(&confirm, o),
+                reproduced,
                 input.len(),
                 min.len(),
                 tries,
-                min.to_line()
+                seed,
+                idx,
+                if line.len() > 200_000 { "@regen".to_string() } else { line }
             );
         }
     }
     println!("DONE chunks={}", done.load(Ordering::SeqCst));
+}
+
+/// `robust shrink <class> [seed idx]`: input line on stdin (or regenerated from seed/idx);
+/// prints the minimised input that still shows the same failure
+fn shrink_cmd(args: &[String]) {
+    let exe = std::env::current_exe().expect("current_exe");
+    let class = ep::class_by_name(&args[0]).expect("unknown class");
+    let input = if args.len() >= 3 {
+        let w = ep::RWorld::new();
+        gen::gen_case(&w, class, args[1].parse().unwrap(), args[2].parse().unwrap()).0
+    } else {
+        let mut line = String::new();
+        std::io::stdin().read_to_string(&mut line).unwrap();
+        gen::Input::parse(line.trim()).expect("bad input line")
+    };
+    let o = run_one_child(&exe, class.name, &input);
+    if !o.kind.is_failure() {
+        println!("SHRUNK {} kind={} loc={} msg={} orig_len={} min_len={} tries=0 input={}", class.name, o.kind.name(), hexs(&o.loc), hexs(&o.msg), input.len(), input.len(), input.to_line());
+        return;
+    }
+    let budget: usize = std::env::var("VERIF_ROBUST_SHRINK").ok().and_then(|v| v.parse().ok()).unwrap_or(250);
+    let (min, tries) = shrink(&exe, class.name, &input, &o, budget);
+    println!(
+        "SHRUNK {} kind={} loc={} msg={} orig_len={} min_len={} tries={} input={}",
+        class.name,
+        o.kind.name(),
+        hexs(&o.loc),
+        hexs(&o.msg),
+        input.len(),
+        min.len(),
+        tries,
+        min.to_line()
+    );
 }
 
 fn replay(args: &[String]) {
@@ -663,6 +711,8 @@ pub fn run(args: &[String]) {
         "worker" => worker(&args[1..]),
         "one" => one(&args[1..]),
         "replay" => replay(&args[1..]),
+        "shrink" => shrink_cmd(&args[1..]),
+        "models" => models::run(&args[1..]),
         "list" => {
             for c in ep::CLASSES.iter() {
                 println!("{} quick={} thorough={} entry={}", c.name, c.quick, c.thorough, c.entry);
